@@ -204,10 +204,10 @@ type setting struct {
 
 var mutations = []string{"none", "account-proof-of-Y", "address-Y-with-Y-proof", "address-EOA", "address-upper-case-no-prefix", "storage-proof-of-other-slot", "key-field-other-slot",
 	"key-field-short-form", "storage-value-field-altered", "proof-from-other-height", "drop-first-account-node", "drop-last-account-node", "drop-first-storage-node", "drop-last-storage-node",
-	"drop-middle-storage-node", "flip-byte-in-last-storage-node", "storage-hash-altered", "code-hash-altered", "nonce-altered", "balance-altered", "no-storage-proof", "extra-unused-nodes", "empty-account-proof"}
+	"drop-middle-storage-node", "flip-byte-in-last-storage-node", "storage-hash-altered", "code-hash-altered", "nonce-altered", "balance-altered", "no-storage-proof", "extra-unused-nodes", "empty-account-proof", "forged-storage-trie"}
 
 // mutate applies a mutation to the honest proof of (X, slot) at world w; other is the world of the other height.
-func mutate(m string, w, other *stateWorld, slot common.Hash, p jsonProof) jsonProof {
+func mutate(m string, w, other *stateWorld, slot common.Hash, p jsonProof, queried []byte) jsonProof {
 	cp := p
 	cp.AccountProof = append([]string{}, p.AccountProof...)
 	cp.StorageProof = nil
@@ -283,6 +283,15 @@ func mutate(m string, w, other *stateWorld, slot common.Hash, p jsonProof) jsonP
 		sp().Proof = append(sp().Proof, "0x"+common.Bytes2Hex([]byte("unused node")))
 	case "empty-account-proof":
 		cp.AccountProof = nil
+	case "forged-storage-trie":
+		// the relayer's own storage trie holding the queried value under the slot, its root announced in storage_hash;
+		// the account proof stays the genuine one (coordinated alteration of storage_hash and the storage nodes)
+		t := newTrie()
+		enc, _ := rlp.EncodeToBytes(bytes.TrimLeft(queried, "\x00"))
+		t.Update(crypto.Keccak256(slot.Bytes()), enc)
+		t.Update(crypto.Keccak256(otherSlot.Bytes()), enc)
+		cp.StorageHash = t.Hash().Hex()
+		sp().Proof = hexes(prove(t, crypto.Keccak256(slot.Bytes())))
 	default:
 		panic(m)
 	}
@@ -507,7 +516,7 @@ func Run(r *ev.Run, tier string) (evals, nontrivial int64) {
 									}
 									base := honest(genW, addrX, slotOf(kind, seq))
 									for _, m := range mutations {
-										p := mutate(m, genW, otherW, slotOf(kind, seq), base)
+										p := mutate(m, genW, otherW, slotOf(kind, seq), base, values[val])
 										bz, _ := json.Marshal(p)
 										var err error
 										func() {
